@@ -43,7 +43,8 @@ BAD_STARTS_REQ = ["GET", "GET /", "GET / HTTP/2.0", "FOO / HTTP/1.1", " / HTTP/1
 BAD_STARTS_RESP = ["HTTP/1.1", "HTTP/1.1 abc OK", "HTTP/1.1 99 Low", "HTTP/1.1 1000 High", "HTTP/2.0 200 OK", "200 OK", "", " ",
                    "HTTP/1.1 200", "XTTP/1.1 200 OK", "HTTP/1.1 -200 OK", "GET / HTTP/1.1", "HTTP/1.1 302 Found",
                    "HTTP/1.1 301 Moved", "HTTP/1.1 100 Continue"]
-BAD_CL = ["-5", "abc", "99999999999999999999", "1e3", "", " 7", "0x10", "+3", "5\xe9", "\xff", "\xb2"]
+BAD_CL = ["-5", "abc", "99999999999999999999", "1e3", "", " 7", "0x10", "+3", "5\xe9", "\xff", "\xb2", "1\xb3", "\xb9",
+          "\u0665".encode("utf-8").decode("latin-1"), "1_0", "5 ", "0005", "5,5"]
 
 
 def mutate(spec, muts, kind):
@@ -99,6 +100,13 @@ def mutate(spec, muts, kind):
         elif k == "cl":
             le = data.find(b"\n")
             if le >= 0:
+                # the bad value must be THE Content-Length of the message: drop the header lines the generator made
+                # (content-length, and transfer-encoding which would make the parser ignore the length)
+                e1, e2 = data.find(b"\r\n\r\n"), data.find(b"\n\n")
+                he = min(x for x in (e1, e2, len(data)) if x >= 0)
+                lines = bytes(data[le + 1:he]).split(b"\n")
+                keep = [ln for ln in lines if not ln.lower().startswith((b"content-length:", b"transfer-encoding:"))]
+                data[le + 1:he] = b"\n".join(keep)
                 data[le + 1:le + 1] = b"Content-Length: " + m[1].encode("latin-1") + b"\r\n"
         elif k == "hiline":
             # a byte >= 0x80 (or NUL) somewhere in the j-th line of the head (start line, header name or value)
@@ -269,6 +277,9 @@ def mutation(kind):
         st.tuples(st.just("longstart"), st.sampled_from([65537, 70000])),
         st.tuples(st.just("manyheaders"), st.sampled_from([95, 101, 120])),
         st.tuples(st.just("cl"), st.sampled_from(BAD_CL)),
+        st.tuples(st.just("cl"), st.sampled_from(BAD_CL)),
+        # digits in other scripts / superscripts: str.isdigit() says yes, int() may say no
+        st.tuples(st.just("cl"), st.sampled_from(["\xb2", "1\xb3", "\xb9\xb9", "2\xb2"])),
         st.tuples(st.just("hiline"), st.integers(0, 12), st.integers(0, 60),
                   st.sampled_from([0x80, 0xe9, 0xff, 0xc3, 0x00, 0xa0, 0xb2]), st.booleans()),
         st.tuples(st.just("truncate"), st.integers(0, 10 ** 6)),
